@@ -578,8 +578,33 @@ def r8_template_escapes_everywhere(ctx):
     r2c_template_reads_in_bounds(ctx)
 
 
+def r9_index_errors_are_classified_in_one_order(ctx):
+    """An index that is not a whole number is an Invalid index; a whole number outside the array - negative included - is Index
+    out of bounds.  The two places that validate an index value (the read in eval_expr, eval_index_value for writes and
+    mutating methods) ask the questions in that order: wherever a function tests an index for wholeness, every Index-out-of-
+    bounds answer it gives comes after that test has passed.  Otherwise `a[minus 0.5]` reads as Invalid index and writes as
+    Index out of bounds."""
+    n = 0
+    for fid in ("runtime::Runtime::eval_expr", "runtime::Runtime::eval_index_value"):
+        fn = ctx.need(fid)
+        ctx.touch(fn)
+        whole = [c for c in fn.calls() if (c.callee or "").split("::")[-1] in ("fract", "trunc", "floor", "round") and "f64" in (c.callee or "")]
+        if not whole:
+            continue
+        oob = [c for c in fn.calls() if c.callee == "runtime::RuntimeError::new" and "IndexOutOfBounds" in sh(ne(fn.deep(c.args[0])))]
+        for c in oob:
+            n += 1
+            short = fid.split("::")[-1]
+            ordn = sum(1 for r in ctx.records if r["rule"] == ctx.rule and r["instance"].startswith("index-order|%s#" % short))
+            if any(fn.dominates(w.block, c.block) for w in whole):
+                ctx.ok("index-order|%s#%d" % (short, ordn + 1), fn.where(c.block), "Index out of bounds only after the wholeness test")
+            else:
+                ctx.bad("index-order|%s|range-before-wholeness" % short, fn.where(c.block), "%s answers Index out of bounds on a path that has not yet tested the index for being a whole number: a negative fraction (`a[minus 0.5] get v`, `a[minus 2.5].push(..)`) is reported as out of bounds here and as Invalid index where the other validator checks it" % short)
+    ctx.floor("Index-out-of-bounds answers next to a wholeness test", n, 2)
+
+
 RULES = [("C01-R1", r1_keyword_chain), ("C01-R2", r2_precedence), ("C01-R3", r3_operator_meaning), ("C01-R4", r4_order_shortcircuit_zero),
-         ("C01-R5", r5_builtin_tables), ("C01-R6", r6_truthiness_and_printing), ("C01-R7", r7_loop_control), ("C01-R8", r8_template_escapes_everywhere)]
+         ("C01-R5", r5_builtin_tables), ("C01-R6", r6_truthiness_and_printing), ("C01-R7", r7_loop_control), ("C01-R8", r8_template_escapes_everywhere), ("C01-R9", r9_index_errors_are_classified_in_one_order)]
 
 EXPLANATION = (
     "Thin by design: output equality with a reference semantics over all programs is not decidable in this family (there is no "
